@@ -111,21 +111,13 @@ impl OpenPositions {
         match self {
             Self::Compact(ap) => ap.find_last_open_at_text_pos(text_pos),
             Self::Dense(v) => {
-                // Binary search for non-compact storage
-                let text_pos_u32 = text_pos as u32;
-                let search_result = v.binary_search(&text_pos_u32);
-
-                match search_result {
-                    Ok(idx) => {
-                        // Found a match, scan right to find the last one
-                        let mut last = idx;
-                        while last + 1 < v.len() && v[last + 1] == text_pos_u32 {
-                            last += 1;
-                        }
-                        Some(last)
-                    }
-                    Err(_) => None,
-                }
+                // Dense storage is chosen exactly when the positions are *not*
+                // sorted (a synthetic null recorded at `text_len` for an empty
+                // document or a valueless explicit key sits between real
+                // positions), so a binary search is not valid here: scan for
+                // the last open recorded at this position.
+                let text_pos_u32 = u32::try_from(text_pos).ok()?;
+                v.iter().rposition(|&p| p == text_pos_u32)
             }
         }
     }
